@@ -26,8 +26,14 @@ def arg_bytes(args, choice):
     return out
 
 
+# labels with characters that mean something to printf, to a shell or to a parser: they are data
+SPECIAL_STR = {-101: "100% done", -102: "%d %s %x %n", -103: "a%%b", -104: "50%", -105: "x:y;z, \"q\" (r) [s] {t}", -106: "%5$s%hhn"}
+
+
 def str_value(v):
     """string argument for value v: 'lbl<n>' for small codes, a label of exactly v>>8 characters otherwise"""
+    if v in SPECIAL_STR:
+        return SPECIAL_STR[v]
     if v >> 8 and v > 0 and (v >> 8) < 2000:
         n = v >> 8
         return ("L%d_" % n + "abcdefghij" * 200)[:n]
@@ -84,8 +90,9 @@ def expected_description(decl, vals):
         size = catalog.TYPE_SIZE[ty]
         v &= 2 ** (8 * size) - 1
         return fmt_value(ty, "%" + fmt if fmt else None, v)
-    s = re.sub(r"%([^{%]*)\{(\w+)\}", rep, decl.desc)
-    return s.replace("%%", "%")
+    # the template's own "%%" becomes "%" first (behind a placeholder), so that a "%%" inside a substituted value stays as it is
+    s = re.sub(r"%([^{%]*)\{(\w+)\}", rep, decl.desc.replace("%%", "\0"))
+    return s.replace("\0", "%")
 
 
 def run(prop, tier):
@@ -305,6 +312,8 @@ def run(prop, tier):
                     # labels of every interesting length (the emulator accepts up to 511 characters)
                     for n in (1, 2, 100, 254, 255, 256, 257, 400, 511):
                         jobs.append((model, e, [(n << 8) if ty == "str" else 5 for ty, _ in e.args]))
+                    for code in sorted(SPECIAL_STR):
+                        jobs.append((model, e, [code if ty == "str" else 5 for ty, _ in e.args]))
 
         def one(j):
             model, e, vals = j
